@@ -22,6 +22,7 @@ static size_t rand_ncount(vrng* r, short* nc, unsigned maxSym, unsigned tableLog
     int const zeroRate = (int)vr_u(r, 4);      /* 0: no absent symbol at all; else 1/4 .. 3/4 ... of the symbols may be absent */
     for (unsigned s = 0; s <= maxSym && total > 0; s++) { if (zeroRate && vr_u(r, 8) < (uint32_t)zeroRate && present) continue; nc[s] = vr_chance(r, 1, 3) ? -1 : 1; total -= 1; present++; }
     if (!present) { nc[0] = 1; total -= 1; present = 1; }
+    {   int anyPos = 0; for (unsigned s = 0; s <= maxSym; s++) if (nc[s] > 0) anyPos = 1; if (!anyPos) for (unsigned s = 0; s <= maxSym; s++) if (nc[s] == -1) { nc[s] = 1; break; } }      /* somebody has to take the remaining probability mass */
     while (total > 0) { unsigned s = vr_u(r, maxSym + 1); if (nc[s] == 0 || nc[s] == -1) continue; int add = 1 + (int)vr_u(r, (uint32_t)total); nc[s] = (short)(nc[s] + add); total -= add; { int any = 0; for (unsigned q = 0; q <= maxSym; q++) if (nc[q] > 0) any = 1; if (!any) { nc[0] = (short)(nc[0] == -1 ? total + 1 : nc[0] + total); total = 0; } } }
     {   int anyPos = 0; for (unsigned s = 0; s <= maxSym; s++) if (nc[s] > 0) anyPos = 1; if (!anyPos) return 0; }
     return 1;
